@@ -20,7 +20,7 @@ use crate::sched::{OrderSpec, SchedSpec};
 /// tables the input asks for" cannot excuse anything.
 const LARGE_TABLE: isize = 10_000;
 
-const FAULT_KINDS: [&str; 29] = [
+const FAULT_KINDS: [&str; 30] = [
     "truncate",
     "bit_flip",
     "significant_byte",
@@ -48,6 +48,7 @@ const FAULT_KINDS: [&str; 29] = [
     "env_output_path_is_dir",
     "env_input_path_spelling",
     "env_hostile_module_name",
+    "env_disk_full",
     "api_history",
     "api_odd_pointer_size",
 ];
@@ -1357,6 +1358,11 @@ pub fn generate(seed: u64, tier: Tier) -> Case {
                 world.input.push(Node::Symlink { path, target });
                 true
             }
+            "env_disk_full" => {
+                // Every write of a regular file fails beyond this many bytes.
+                world.write_limit = Some(*rng.pick(&[0u64, 1, 64, 300, 1000, 4096]));
+                true
+            }
             "env_out_dir_is_file" => {
                 world.out_is_file = true;
                 true
@@ -1624,6 +1630,7 @@ pub fn evaluate(case: &Case, results: &[Vec<RunResult>], report: &mut CaseReport
                 || world.input.len() != base.input.len()
                 || world.pointer_size != base.pointer_size
                 || world.out_is_file
+                || world.write_limit.is_some()
                 || !world.pre_out.is_empty()
                 || !world.in_arg_suffix.is_empty()
                 || case
